@@ -87,7 +87,12 @@ func (C10) Explore(x *kernel.Explorer, seed uint64) {
 			// fault batch: a store call fails
 			nf := 1 + r.Intn(2)
 			for k := 0; k < nf; k++ {
-				plan.Faults = append(plan.Faults, kernel.Fault{Site: "tok.", Nth: 1 + r.Intn(20), Kind: kernel.FErr})
+				f := kernel.Fault{Site: "tok.", Nth: 1 + r.Intn(20), Kind: kernel.FErr}
+				if r.Chance(1, 3) {
+					// a stored token record read back damaged (storage fault)
+					f = kernel.Fault{Site: "tok.Get", Nth: 1 + r.Intn(12), Kind: kernel.FTorn, Arg: int64(r.Intn(100000))}
+				}
+				plan.Faults = append(plan.Faults, f)
 			}
 		}
 		x.Exec(plan)
@@ -110,6 +115,22 @@ func (y yieldTokenStorage) Save(id []byte, ctx common.TokenContext, data []byte)
 
 func (y yieldTokenStorage) Get(id []byte, ctx common.TokenContext) ([]byte, error) {
 	d := y.w.Seam(y.w.Cur, "tok.Get", fmt.Sprintf("%x", id[:min(4, len(id))]))
+	if d.Kind == kernel.FTorn {
+		// the stored record comes back damaged: cut short, a byte flipped, or extended
+		data, err := y.TokenStorage.Get(id, ctx)
+		if err != nil || len(data) == 0 {
+			return data, err
+		}
+		c := append([]byte{}, data...)
+		switch d.Arg % 3 {
+		case 0:
+			return c[:int(d.Arg/3)%len(c)], nil
+		case 1:
+			c[int(d.Arg/3)%len(c)] ^= 1 << uint(d.Arg%8)
+			return c, nil
+		}
+		return append(c, c[:min(len(c), 1+int(d.Arg/3)%9)]...), nil
+	}
 	if d.Kind != "" {
 		return nil, fmt.Errorf("injected token store error")
 	}
@@ -304,6 +325,11 @@ func (C10) Run(t *testing.T, plan *kernel.Plan, keepLog bool) *kernel.Result {
 					w.BeginOp(proc, op)
 					call := w.Res.Steps
 					firedBefore := totalFired(w)
+					// a stored record that came back damaged (torn) during this operation: without the encrypting
+					// wrapper nothing authenticates token records, so the answer built from it is only required
+					// not to bring the handler down
+					tornBefore := w.Res.Fired[kernel.FTorn]
+					damaged := func() bool { return w.Res.Fired[kernel.FTorn] > tornBefore }
 					switch op.Kind {
 					case "tok":
 						value := op.Str(0)
@@ -316,7 +342,9 @@ func (C10) Run(t *testing.T, plan *kernel.Plan, keepLog bool) *kernel.Result {
 							continue
 						}
 						out := c10Out{OK: err == nil, Val: string(tok)}
-						if err == nil {
+						if err == nil && damaged() {
+							w.Probe("answer-from-damaged-record")
+						} else if err == nil {
 							if msg := c10Shape(tt, value, string(tok)); msg != "" {
 								w.Violate("C10", "token-has-shape-of-value", site, fmt.Sprintf("value %q: %s", value, msg))
 							}
@@ -332,7 +360,7 @@ func (C10) Run(t *testing.T, plan *kernel.Plan, keepLog bool) *kernel.Result {
 							other := common.TokenContext{ClientID: []byte(clients[(int(op.Arg(1, 0))+1)%2])}
 							ob, oerr := dt.Detokenize(tok, other, setting)
 							// (only where a chance collision between the two clients' tokens is out of the question)
-							if oerr == nil && string(ob) == value && value != string(tok) && (len(tok) >= 8 || tt == common.TokenType_Int32 || tt == common.TokenType_Int64) {
+							if !damaged() && oerr == nil && string(ob) == value && value != string(tok) && (len(tok) >= 8 || tt == common.TokenType_Int32 || tt == common.TokenType_Int64) {
 								known := false
 								for _, is := range tokens {
 									if is.ctx == string(other.ClientID) && is.token == string(tok) && is.tt == tt {
@@ -343,7 +371,9 @@ func (C10) Run(t *testing.T, plan *kernel.Plan, keepLog bool) *kernel.Result {
 									w.Violate("C10", "other-client-gets-token", site, fmt.Sprintf("token %q of %s detokenizes to the original for another client", tok, client))
 								}
 							}
-							tokens = append(tokens, issued{client, string(tok), value, tt})
+							if !damaged() {
+								tokens = append(tokens, issued{client, string(tok), value, tt})
+							}
 						} else if !under {
 							// fault-free tokenization of a well-formed value must work;
 							// a value outside the column type may be refused
@@ -354,7 +384,7 @@ func (C10) Run(t *testing.T, plan *kernel.Plan, keepLog bool) *kernel.Result {
 							}
 						}
 						w.EndOp(proc, fmt.Sprintf("%q err=%v", tok, err))
-						if consistent {
+						if consistent && !damaged() {
 							hist = append(hist, porcupine.Operation{ClientId: proc, Call: int64(call), Return: int64(w.Res.Steps),
 								Input:  c10In{Kind: "tok", Key: fmt.Sprintf("%s|%d|%s", client, tt, value), Value: value},
 								Output: out})
